@@ -496,6 +496,17 @@ def interp_err_class(r, mb=None):
         return "abort:" + (abort_class(mb) or "unclassified")
     msg = re.sub(r"\d+", "N", str(r[1] if isinstance(r, tuple) else r))
     msg = msg.replace("RuntimeError: ", "")
+    if mb is not None and (("conv.cc" in msg and "zero_point" in msg) or ("transpose_conv.cc" in msg and "weights->type" in msg)):
+        # finding D39: the kernel refuses a RUNTIME weight tensor quantized like an activation
+        try:
+            from . import fam_numeric as _fn
+            m_ = read(mb)
+            vs = [_fn.op_variant(m_, sg, op) for sg in m_.subgraphs for op in sg.operators]
+            hit = [v for v in vs if "runtime-weight" in v]
+            if hit:
+                return (str(r[0]) + ":" if isinstance(r, tuple) else "") + hit[0]
+        except Exception:  # noqa: BLE001
+            pass
     if "batch_matmul.cc" in msg and "rhs_data->type" in msg and mb is not None and _int4_bmm_rhs(mb):
         # finding D37: the emulated sub-channel pattern hands a 4-bit constant to BATCH_MATMUL, whose kernel takes float32/int8/int16 only
         return (str(r[0]) + ":" if isinstance(r, tuple) else "") + "BATCH_MATMUL:int4-rhs"
